@@ -262,8 +262,97 @@ def long_subid(n):
     return B.enc_community_msg(1, b"public", B.tlv(0xA2, B.enc_int(1000) + B.enc_int(0) + B.enc_int(0) + B.tlv(0x30, vb)))
 
 
+def retention(ctx, res):
+    """What stays allocated after MANY datagrams.  Each delivery is bounded by its own size, but a
+    peer controls as many datagrams as it likes: whatever a datagram leaves behind for good —
+    entries in process-wide caches keyed by something taken from the datagram — adds up.  Two
+    streams of N distinct datagrams; the memory still traced afterwards must stay below a fifth of
+    the octets delivered (+ 400 kB of slack for interpreter noise)."""
+    import gc
+
+    from harness.c19 import Listener
+
+    n = ctx.budget(150, 600)
+    was_tracing = tracemalloc.is_tracing()
+    if not was_tracing:
+        tracemalloc.start()
+    try:
+        # (a) a trap listener and datagrams that each name another unknown version / another community
+        lst = Listener(b"public")
+        try:
+            pdu = B.enc_pdu(0xA7, 1, 0, 0, [(OID, ["str", "00" * 8])])
+            lst.inject([("10.0.0.9", 999, B.enc_community_msg(1, b"public", pdu))])  # warm-up: imports, plug-in lookup
+            gc.collect()
+            base = tracemalloc.get_traced_memory()[0]
+            total = 0
+            for i in range(n):
+                filler = bytes((i * 7 + k) % 251 for k in range(6000))
+                dg = B.enc_community_msg(1000 + i, filler, pdu) if i % 2 else B.enc_community_msg(1, filler, pdu)
+                total += len(dg)
+                lst.inject([("10.0.%d.%d" % (i // 250, i % 250 + 1), 2000 + i, dg)])
+            gc.collect()
+            grown = tracemalloc.get_traced_memory()[0] - base
+        finally:
+            lst.close()
+        res.evaluations += 1
+        res.count("retention:trap-listener")
+        if grown > total // 5 + 400_000:
+            res.violate("retention", {"entry": "trap", "datagrams": n, "octets": total}, f"at most {total // 5 + 400_000} octets retained", grown,
+                        "memory stays allocated in proportion to the number of datagrams a trap listener has seen", {"kind": "retained-memory", "entry": "trap"})
+        # (b) a v3 client whose requests are answered by forged responses, each naming another (large)
+        # authoritative engine id with the auth flag set: refused — and nothing may be left behind
+        for method in (("auth",) if ctx.quick else ("auth", "auth-sha1")):
+            agent, s, client = make_world("v3", method)
+            counter = {"i": 0}
+
+            def forge(a, msg, _out, counter=counter):
+                counter["i"] += 1
+                i = counter["i"]
+                eid = b"\x80\x00\x1f\x88" + i.to_bytes(4, "big") + bytes((i * 13 + k) % 253 for k in range(8000))
+                rid = msg["scoped"]["pdu"]["request_id"] if "scoped" in msg else 1
+                sc = B.enc_scoped(b"", b"", B.enc_pdu(0xA2, rid, 0, 0, []))
+                return B.enc_v3_message(msg["msg_id"], 65507, 1, eid, msg["boots"], msg["time"], bytes(msg["user"]), b"\x07" * 12, b"", sc)
+
+            W.run(client.get(RA.OID(OID)))  # warm-up (key derivation for the real engine)
+            agent.hook_v3 = forge
+            # a bounded cache is no leak: let anything of up to 280 entries fill up first, then measure
+            def forget():  # the reference agent's own records are not the client's memory
+                for lg in (agent.log, agent.raw_log, agent.resp_log, agent.kwargs_log):
+                    lg.clear()
+
+            for _ in range(280):
+                BL.guarded(lambda: W.run(client.get(RA.OID(OID))), 5.0)
+            forget()
+            gc.collect()
+            base = tracemalloc.get_traced_memory()[0]
+            refused = 0
+            for _ in range(n):
+                r = BL.guarded(lambda: W.run(client.get(RA.OID(OID))), 5.0)
+                refused += r[0] == "error"
+            agent.hook_v3 = None
+            forget()
+            gc.collect()
+            grown = tracemalloc.get_traced_memory()[0] - base
+            total = n * 8100
+            res.evaluations += 1
+            res.count(f"retention:forged-v3-responses:{method}")
+            case = {"entry": "response", "level": method, "datagrams": n, "octets": total, "refused": refused}
+            if refused != n:
+                res.violate("retention", case, "every forged response refused", refused, "a forged response (foreign engine id, wrong digest) was not refused", {"kind": "forged-accepted"})
+            elif grown > total // 5 + 400_000:
+                res.violate("retention", case, f"at most {total // 5 + 400_000} octets retained", grown,
+                            "memory stays allocated in proportion to the number of (refused) responses a client has seen", {"kind": "retained-memory", "entry": "response"})
+            after = follow_up(client)
+            if after != ("ok", ["str", "6f6b"]):
+                res.violate("retention", case, "the next request succeeds", list(after)[:2], "the client is unusable after a run of forged responses", {"kind": "unusable-after", "entry": "retention"})
+    finally:
+        if not was_tracing:
+            tracemalloc.stop()
+
+
 def run(ctx):
     res = Result()
+    retention(ctx, res)
     base_list, valid_trap = bases()
     cases = []
     for entry, version, level, dg, agent in base_list:
